@@ -661,14 +661,14 @@ def _only_stored(fn, pv, pname, state_atoms):
     return bool(uses) and all(id(u) in stored_nodes for u in uses)
 
 
-def memo_guard_sites(P, prefixes):
+def memo_guard_sites(P, prefixes, allow=None):
     """[(fn, signature, gaps, key params, holder params, state type)] for every guard in functions under `prefixes` that consults
     run-time state (a `&mut`-borrowed or interior-mutable collection, a thread-local) through a membership/look-up method.
     signature = (crate, element type of the state, sorted field atoms of the key) — independent of function and local names."""
     from prov import Prov
     out = []
     for p, f in sorted(P.fns.items()):
-        if f.derived or "::tests" in p or not any(p.startswith(x) or p.startswith("<" + x) for x in prefixes):
+        if f.derived or "::tests" in p or not (any(p.startswith(x) or p.startswith("<" + x) for x in prefixes) or (allow and p in allow)):
             continue
         gs = stateful_guards(f, P, adaptors=True)
         if not gs:
@@ -700,7 +700,7 @@ def memo_guard_sites(P, prefixes):
     return out
 
 
-def memo_rule(P, R, rule, prefixes, what):
+def memo_rule(P, R, rule, prefixes, what, allow=None):
     """Memoisation / seen-set discipline.  Every guard that skips or reuses work because run-time state says "already done" is a
     place where the answer for one input can be served for another.  The guards of the pinned tree are frozen by signature in
     tables/memo_guards.json (each was read: its key determines the skipped work); a guard with a new signature is a new memo, and
@@ -710,7 +710,7 @@ def memo_rule(P, R, rule, prefixes, what):
     global PROGRAM_FOR_MEMO
     PROGRAM_FOR_MEMO = P
     table = _memo_table()
-    sites = memo_guard_sites(P, prefixes)
+    sites = memo_guard_sites(P, prefixes, allow)
     n = 0
     for f, sig, gaps, key, holder, t in sites:
         n += 1
